@@ -117,9 +117,10 @@ class Actor:
             except Exception:  # noqa
                 js = {}
             if isinstance(js, dict):
-                for k, v in (js.get('csrfTokens') or {}).items():
-                    if v:
-                        found[k] = v
+                for coll in ('csrfTokens', 'csrf_tokens'):
+                    for k, v in (js.get(coll) or {}).items():
+                        if v:
+                            found[k] = v
                 if js.get('csrf_token'):
                     found['json'] = js['csrf_token']
         return found
